@@ -56,6 +56,36 @@ func VxC18_DotString() {
 	vx.Assert(back == s, "unescaping restores the string")
 }
 
+// VxC18_RuneRange (translator validation): `for range` over a string with symbolic bytes, as the
+// engine decodes it, agrees with the native decoder - sampled paths are replayed natively and the
+// observed rune count, rune sum and first width are compared; structural facts are asserted.
+//
+//vx:solver z3-new
+//vx:maxdec 100000
+//vx:bound byte strings of length 1..3, every byte symbolic (all UTF-8 classes, truncated and invalid sequences)
+func VxC18_RuneRange() {
+	n := vx.Choose("len", 1, 3)
+	b := make([]byte, n)
+	for i := range b {
+		b[i] = vx.ByteI("b", i)
+	}
+	s := string(b)
+	count, sum, firstW, last := 0, 0, 0, 0
+	for i, r := range s {
+		if count == 1 {
+			firstW = i
+		}
+		count++
+		sum += int(r)
+		last = i
+		vx.Assert(r >= 0 && r <= 0x10FFFF && !(r >= 0xD800 && r <= 0xDFFF), "decoded runes are Unicode scalar values")
+	}
+	vx.Assert(count >= 1 && count <= n && last < n, "between one rune per byte and one rune in all")
+	vx.Observe("count", count)
+	vx.Observe("sum", sum)
+	vx.Observe("firstWidth", firstW)
+}
+
 // VxC18_DotPrint: one node statement per node, one edge statement per edge in order, a label
 // attribute exactly when NodeAttrs supplied none, and the caller's attribute slice is not appended into.
 //
